@@ -21,6 +21,15 @@ served directory's getChild -> createSimilarFile), the Site one per run or one
 per connection: nothing remembered per path, per File object or per class may
 outlive the file it was computed from.
 
+The representation is not always the bytes on disk: static.File documents two
+subclass hooks ("methods to allow subclasses to e.g. decrypt files on the fly":
+openForReading() and getFileSize()).  In 40% of the runs the resource is such a
+subclass - the stored file carries a header and/or a trailer that is not served,
+or is stored deflated and inflated on the fly - so the length on disk differs
+from the length of what is served.  Ranges, Content-Range (complete-length
+included), Content-Length and the 416 header are judged against the SERVED
+representation, which is the only thing a client can see.
+
 A second family (a fifth of the runs) leaves the HTTP channel out: File.render()
 writes into a minimal IRequest-like consumer (PullConsumer) that pulls the
 producer itself - from its driver between writes, inside registerProducer(), or
@@ -56,10 +65,13 @@ exception out of render() / resumeProducing() / stopProducing(), a producer
 that is pulled 60 times without writing or finishing never finishes; a stopped
 response is a prefix of what was due and its file is closed.
 """
+import errno
+import io
 import os
 import shutil
 import tempfile
 import traceback
+import zlib
 
 from twisted.internet import _producer_helpers, task
 from twisted.logger import globalLogPublisher
@@ -76,7 +88,8 @@ ID = "C25"
 ENGINE = "net"
 LEVEL = "exploration"
 TECHNIQUE = ("deterministic simulation: seeded Range-header grammar x per-run producer bufferSize x tape-chosen pulls, client reads, back-pressure "
-             "and connection loss on pipelined connections x file rewritten between requests x re-entrantly pulling consumer; every response "
+             "and connection loss on pipelined connections x file rewritten between requests x re-entrantly pulling consumer x representation served "
+             "through the openForReading()/getFileSize() subclass hooks (served length != stored length); every response "
              "checked against an independent RFC 9110 range evaluator applied to the file as it was when the request was rendered")
 QUICK_RUNS = 26000
 TWIN_P = 0.08   # this share of the runs drives two independent instances of the scenario one after the other (detsim.runner._run_scenario);
@@ -89,17 +102,22 @@ COMPONENTS = {
              "MultipleRangeStaticProducer", "twisted.web.server.Site/Request.render", "twisted.web.http.HTTPChannel/Request "
              "(registerProducer/write/finish, pauseProducing/resumeProducing)", "twisted.internet._producer_helpers._PullToPush",
              "twisted.internet.task.Cooperator (fresh instance, scheduler = simulated clock)", "a real file under $VERIF_SCRATCH (rewritten "
-             "between requests)", "static.File.getChild/createSimilarFile (directory tree: a fresh File per request)"],
+             "between requests)", "static.File.getChild/createSimilarFile (directory tree: a fresh File per request)",
+             "static.File's subclass hooks openForReading()/getFileSize() (overridden in 40% of the runs: served length != length on disk)"],
     "stub": ["TCP transport with a small send buffer (detsim.net.SimTransport, hwm) and injected connection loss",
              "the client (scripted pipelined requests, reads tape-chosen amounts at tape-chosen times)",
              "direct family: the request (PullConsumer: the dozen request methods File.render and the producers use; pulls by itself, also from inside write())",
              "server.Site.getResourceFor overridden only to mark the moment between two requests (the file is rewritten there)",
              "wall clock / pid behind the multipart boundary (static.time, static.os.getpid) and http.gmtime -> simulated clock",
+             "the static.File subclass of the hooked runs: a header/trailer-stripping window over the stored file, or the stored file "
+             "inflated into memory (two methods, as the class comment invites; everything else is static.File's own code)",
              "models/ranges.py and models/http1.py as the independent evaluator and parsers (oracle side)"],
 }
 RULE = ("run = one file path (size 0..64 KiB in three regimes; in 40% of the runs with more than one request the file is rewritten - grown, shrunk, "
         "emptied, other bytes - before 60% of the later requests, and Range positions are drawn around any of its sizes; 30% of the later requests "
-        "repeat an earlier Range value), File object shared or fresh per request, 1-3 consecutive connections, one producer bufferSize (1 byte .. 64 KiB, raised if a response would need more than "
+        "repeat an earlier Range value), representation = the stored bytes (60%) or what a static.File subclass makes of them through openForReading()/"
+        "getFileSize() (header of 1..300 bytes stripped / trailer stripped / both / stored deflated: 10% each; sizes, ranges and verdicts all refer to "
+        "the served representation), File object shared or fresh per request, 1-3 consecutive connections, one producer bufferSize (1 byte .. 64 KiB, raised if a response would need more than "
         "~600 pulls), one send-buffer limit (none / 0 / 1 / 40 / 300 / 5000 / 70000 bytes; in half of the limited runs the transport re-issues "
         "pauseProducing on every over-limit write like abstract.FileDescriptor), 1-3 pipelined GET/HEAD requests with grammar-generated Range headers; "
         "events (request delivery, cooperator tick = burst of 1-8 pulls, client read of n bytes, connection loss in 25% of the runs) are chosen by the "
@@ -108,15 +126,20 @@ RULE = ("run = one file path (size 0..64 KiB in three regimes; in 40% of the run
         "20% of the runs are the direct family: the same requests rendered into a PullConsumer (nesting depth of pulls from inside write() 0/1/2/6/40, "
         "each such pull tape-chosen, first pull inside registerProducer() or later, two live responses in 30%, producer stopped between pulls in 15%; "
         "in 9 of 10 such runs the consumer does not pull from inside the write that completed the announced Content-Length - an open finding)")
-ASSUMPTIONS = ["the file does not change while a response is being produced (it is rewritten only between responses: after Request.finish() of the "
+ASSUMPTIONS = ["'a static file resource' includes a static.File subclass that overrides only the two documented hooks openForReading() and getFileSize() "
+               "consistently (getFileSize() = number of bytes the object returned by openForReading() yields; that object supports read/seek/tell/close "
+               "like a binary file); 'file content' is then the content served, whose length may be larger or smaller than os.stat().st_size",
+               "the file does not change while a response is being produced (it is rewritten only between responses: after Request.finish() of the "
                "previous one / after the connection is gone, before the next request is looked up); Range field values contain no CR/LF/NUL (the channel refuses those: C19)",
                "StaticProducer.bufferSize (a public class attribute) may be any positive integer",
                "a consumer of a pull producer may call resumeProducing() whenever it wants data and a producer is registered with it, also from "
                "inside its own write() (the producers' comments say so); it records the data before it asks for more",
                "If-Range / If-Modified-Since are not sent (conditional requests are outside the statement)",
                "HEAD: either a plain 200 (RFC 9110 14.2: Range is defined for GET only) or the GET status line and header fields is accepted",
-               "several ranges: parts may be coalesced, reordered or repeated (15.3.7.2); each part must start and end where a requested range does "
-               "and all requested bytes must be carried",
+               "several ranges: parts may be coalesced, reordered or repeated (15.3.7.2: the order of the range-specs is a SHOULD, and 'a client "
+               "cannot rely on receiving the same ranges that it requested, nor the same order that it requested'); each part must start and end "
+               "where a requested range does, carry the bytes its own Content-Range names, and all requested bytes must be carried.  No verdict on "
+               "the ORDER of the parts: the statement asks for exactly the requested byte ranges with matching Content-Range, not for a sequence",
                "no verdict on the status for: empty range set ('bytes=' -> 200 or 416), lenient-integer forms ('+1-2', ' 1 - 2 ', '1_0-', '--5', "
                "'Bytes='), empty representation (200 or 416), more than two overlapping / three unordered ranges (200 also allowed)"]
 LEVEL_NOTE = ("Which status/Content-Range/bytes belong to a (size, Range) pair is arithmetic; that part of the verdict rests on input sampling from "
@@ -191,6 +214,66 @@ class TrackedFile:
     @property
     def closed(self):
         return self._f.closed
+
+    def fileno(self):
+        return self._f.fileno()
+
+    def __enter__(self):
+        return self
+
+    def __exit__(self, *exc):
+        self._f.close()
+
+
+class View:
+    """What a subclass that transforms the stored file on the fly hands out from openForReading(): a binary-file-like object
+    over `n` bytes of `f` starting at `lo` (argument checks as io.BufferedReader: a negative seek target and a read length
+    below -1 are refused)."""
+
+    def __init__(self, f, lo, n):
+        self._f, self._lo, self._n, self._pos = f, lo, n, 0
+        f.seek(lo)
+
+    def read(self, n=-1):
+        if n is None:
+            n = -1
+        if n < -1:
+            raise ValueError("read length must be non-negative or -1")
+        left = max(0, self._n - self._pos)
+        if n < 0 or n > left:
+            n = left
+        d = self._f.read(n) if n > 0 else b""
+        self._pos += len(d)
+        return d
+
+    def seek(self, offset, whence=0):
+        pos = offset + (0 if whence == 0 else self._pos if whence == 1 else self._n)
+        if pos < 0:
+            raise OSError(errno.EINVAL, "Invalid argument")
+        self._pos = pos
+        self._f.seek(self._lo + min(pos, self._n))
+        return pos
+
+    def tell(self):
+        return self._pos
+
+    def close(self):
+        return self._f.close()
+
+    @property
+    def closed(self):
+        return self._f.closed
+
+
+REPRESENTATIONS = [("plain", 6), ("header", 1), ("trailer", 1), ("both", 1), ("packed", 1)]
+NOT_SERVED = bytes((b ^ 0x5A) for b in PATTERN[101:1001])       # header / trailer bytes of the stored form
+
+
+def stored_form(content, kind, pre, post):
+    """what is on disk for a representation `content`"""
+    if kind == "packed":
+        return zlib.compress(content, 1)
+    return NOT_SERVED[:pre] + content + NOT_SERVED[pre:pre + post]
 
 
 class RepausingTransport(H.HTransport):
@@ -590,6 +673,10 @@ def run(sim):
     changing = total > 1 and sim.draw_bool(0.4, "file-rewritten-between-requests")
     by_rename = changing and sim.draw_bool(0.5, "rewrite-by-rename")
     tree = sim.draw_weighted([("child", 5), ("directory", 4)], "tree")
+    # what is served is the stored file - or what a subclass makes of it through the two documented hooks
+    repr_kind = sim.draw_weighted(REPRESENTATIONS, "representation")
+    pre = sim.draw_choice([1, 7, 64, 300], "stored-header") if repr_kind in ("header", "both") else 0
+    post = sim.draw_choice([1, 7, 64, 300], "stored-trailer") if repr_kind in ("trailer", "both") else 0
     site_per_conn = nconn > 1 and sim.draw_bool(0.5, "site-per-connection")
     cap = {"tiny": 80, "small": 3000, "big": MAXSIZE}[regime]
     plan = [(size, 0)]              # (size, content shift) of the file when request k is rendered
@@ -669,7 +756,7 @@ def run(sim):
         """(re)write the served file.  Only ever called while no response is being produced."""
         if disk["v"] == version:
             return
-        data = content_of(version)
+        data = stored_form(content_of(version), repr_kind, pre, post)
         if disk["v"] is not None:
             sim.fault("file_rewritten_between_requests")
             sim.event("rewrite", where, disk["v"][0], "->", version[0])
@@ -698,10 +785,43 @@ def run(sim):
 
     class TFile(static.File):
         def openForReading(self):
-            tf = TrackedFile(static.File.openForReading(self), book)
+            tf = TrackedFile(self.open_representation(), book)
             tf.k = cur["k"]
             opened.append(tf)
             return tf
+
+        def open_representation(self):
+            return static.File.openForReading(self)
+
+        def open(self, mode="r"):
+            # every way to the stored bytes carries the end-of-file guard (a producer that keeps asking a file that has no more
+            # bytes must become a verdict, not a run that never ends) - also when the file was not obtained from openForReading()
+            return TrackedFile(static.File.open(self, mode), book)
+
+    if repr_kind == "packed":
+        class TFile(TFile):
+            """stored deflated, served inflated (the gunzip-on-the-fly kind of subclass)"""
+
+            def inflated(self):
+                with static.File.openForReading(self) as f:
+                    return zlib.decompress(f.read())
+
+            def open_representation(self):
+                data = self.inflated()
+                return View(io.BytesIO(data), 0, len(data))
+
+            def getFileSize(self):
+                return len(self.inflated())
+    elif repr_kind != "plain":
+        class TFile(TFile):
+            """the stored file has a header and/or a trailer that is not part of what is served"""
+
+            def open_representation(self):
+                f = static.File.openForReading(self)
+                return View(f, pre, os.fstat(f.fileno()).st_size - pre - post)
+
+            def getFileSize(self):
+                return self.getsize() - pre - post
 
     def before_render():
         """between two requests: the previous response has been handed over completely (Request.finish() has been called, or the
@@ -796,7 +916,7 @@ def run(sim):
         bufsize = max(bufsize, 2 * due + 8192)      # every multipart response is produced by a single call
     static.StaticProducer.bufferSize = bufsize
     sim.config = {"regime": regime, "consumer": consumer, "sizes": [v[0] for v in plan], "rewrites": kinds, "rewrite_by_rename": by_rename,
-                  "tree": tree, "site_per_connection": site_per_conn, "bufferSize": bufsize, "hwm": hwm, "nreqs": nreqs,
+                  "tree": tree, "representation": repr_kind, "stored_header": pre, "stored_trailer": post, "site_per_connection": site_per_conn, "bufferSize": bufsize, "hwm": hwm, "nreqs": nreqs,
                   "avoid_repaired_findings": avoid, "avoid_multipart_multicall": avoid_negread, "avoid_pipelined_backpressure": avoid_unpaused,
                   "repause": repause, "bursts": bursts, "loss_at": loss_at, "loss_conn": loss_conn,
                   "direct": None if consumer != "direct" else {"reenter_depth": maxdepth, "reenter_p": p_reenter, "length_aware": length_aware,
@@ -808,7 +928,7 @@ def run(sim):
         return r["tags"][0] if r["tags"] else r["exp"].why
 
     def describe():
-        return "sizes=%r bufferSize=%d hwm=%r tree=%s requests=%r" % ([v[0] for v in plan], bufsize, hwm, tree,
+        return "sizes=%r representation=%s(-%d,-%d) bufferSize=%d hwm=%r tree=%s requests=%r" % ([v[0] for v in plan], repr_kind, pre, post, bufsize, hwm, tree,
                                                                     [(r["conn"], r["method"], r["version"], r["value"]) for r in allreqs])
 
     flags = {"multi_call": False, "any_lost": False}
@@ -930,6 +1050,8 @@ def run(sim):
             if failure is not None:
                 sim.fail(failure[0], failure[1], failure[2] + "\n " + detail(i))
             sim.probe("status_%d" % m.code)
+            if repr_kind != "plain":
+                sim.probe("served_length_differs_from_stored_status_%d" % m.code)
             if exp.free:
                 sim.probe("no_verdict_on_status_lenient_form")
             if r["method"] == b"GET" and m.code == 206:
@@ -938,6 +1060,9 @@ def run(sim):
                 if bnd is not None:
                     sim.probe("multipart_response")
                     parts, _ = R.parse_multipart(m.body, bnd)
+                    firsts = [a for a, _b in exp.resolved]
+                    if firsts != sorted(firsts):
+                        sim.probe("multipart_for_ranges_not_in_ascending_order")      # reached; the order of the parts gets no verdict
                     # where did the transport writes fall?  (probe only)
                     body0 = m.end - len(m.body)
                     edges = set()
@@ -1047,6 +1172,8 @@ def run(sim):
             if failure is not None:
                 sim.fail(failure[0], failure[1], ("(consumer stopped the producer) " if partial else "") + failure[2] + "\n " + ddetail(c))
             sim.probe("status_%d" % c.code)
+            if repr_kind != "plain":
+                sim.probe("served_length_differs_from_stored_status_%d" % c.code)
             if c.tf is not None and c.tf.data_reads >= 2 and r["value"] is not None:
                 flags["multi_call"] = True
                 sim.probe("multi_call_production")
@@ -1152,6 +1279,7 @@ def run(sim):
         sim.probe("empty_file")
     if tree == "directory":
         sim.probe("fresh_file_object_per_request")
+    sim.probe("representation_" + repr_kind)
     if any(r["version"] == b"HTTP/1.0" for r in allreqs):
         sim.probe("http10_request")
     sim.state((regime, consumer, min(bufsize, 70000) // 64, hwm, tuple(nreqs), tuple(r["exp"].why for r in allreqs), flags["any_lost"],
@@ -1215,6 +1343,20 @@ MUTANTS = [
     "CAUGHT render_GET: self.restat(False) removed (size and existence remembered by the File object) -> body:200-not-whole-content, "
     "never-finishes:valid-multi, content-range:416",
     "CAUGHT getFileSize memoised per path in a module-level dict -> body:200-not-whole-content, response-missing:valid-single, never-finishes:*",
+    # -- round 5: representation served through the documented subclass hooks (served length != length on disk)
+    "CAUGHT seeded C25-r5a (_contentRange takes the complete-length from getsize() instead of getFileSize()) -> content-range:complete-length, "
+    "multipart:part-content-range-vs-length, multipart:part-invalid-content-range (quick, < 500 runs); MISSED while every served representation "
+    "was the stored file byte for byte",
+    "CAUGHT _rangeToOffsetAndSize: size = self.getsize() -> content-range:part-is-not-a-requested-range, never-finishes:*",
+    "CAUGHT _setContentHeaders: default size = self.getsize() -> content-length:200, content-length:head-200, response-incomplete:*",
+    "CAUGHT 416 header 'bytes */N' from getsize() (single-range branch; multi-range branch) -> content-range:416",
+    "CAUGHT render_GET: self.open() instead of self.openForReading() -> response-stream:*, never-finishes:* (the end-of-file guard also sits on "
+    "FilePath.open: without it this mutant spins inside MultipleRangeStaticProducer.resumeProducing and the run never ends)",
+    "NOT CAUGHT, OUTSIDE THE STATEMENT: seeded C25-r5b (_doMultipleRangeRequest sorts the parts by file offset).  Every part still carries "
+    "its own matching Content-Range and bytes, the parts are exactly the satisfiable requested ranges, Content-Length is right.  The statement "
+    "asks for 'exactly the requested byte ranges and matching Content-Range ... per RFC 9110' and is silent about a sequence; RFC 9110 15.3.7.2 "
+    "makes request order a SHOULD and tells clients they 'cannot rely on receiving the same ranges ... nor the same order'.  A clause on the order "
+    "would raise an alarm on a conforming implementation; the workload does reach the trigger (probe multipart_for_ranges_not_in_ascending_order)",
     "GENUINE (unchanged tree, direct family, 1 run in 10 not avoiding it) MultipleRangeStaticProducer: consumer pulls from inside the write that "
     "carries the close-delimiter (or the empty body of a multi-range 416) -> raised:direct-reentrant:AttributeError "
     "('NoneType' object has no attribute 'unregisterProducer', static.py resumeProducing `if done:`)",
